@@ -56,7 +56,7 @@ const maxLegalKey = uint64(math.MaxUint64 - 1) // keys in [1, 2^64-2]; 2^64-2 is
 
 // genTree generates a history by running the generator against the reference
 // model, so that keys, values and thresholds can be drawn next to existing ones.
-func genTree(seed uint64, reopen bool) *TreePlan {
+func genTree(seed uint64, reopen bool, deep bool) *TreePlan {
 	r := core.NewRand(seed, 1)
 	p := &TreePlan{}
 	p.PageSize = []int{80, 80, 96, 128, 128, 256, 1024, os.Getpagesize()}[r.IntN(8)]
@@ -75,6 +75,12 @@ func genTree(seed uint64, reopen bool) *TreePlan {
 	nops := 20 + r.IntN(380)
 	if r.IntN(4) == 0 {
 		nops = 5 + r.IntN(30)
+	}
+	keyBudget := 5000
+	if deep {
+		// thorough tier: histories several times as long over more keys
+		nops = 400 + r.IntN(1200)
+		keyBudget = 25000
 	}
 	growth := r.IntN(25) == 0 // a few runs push the tree beyond its initial 1 MiB
 	valMode := r.IntN(3)      // 0: unrelated to key order, 1: increasing clock, 2: small range
@@ -126,7 +132,7 @@ func genTree(seed uint64, reopen bool) *TreePlan {
 		}
 		model[k] = v
 	}
-	budget := 5000
+	budget := keyBudget
 	for len(p.Ops) < nops {
 		x := r.IntN(100)
 		switch {
@@ -196,7 +202,7 @@ func genTree(seed uint64, reopen bool) *TreePlan {
 			p.Ops = append(p.Ops, TOp{K: TReset})
 			model = map[uint64]uint64{}
 			keys = keys[:0]
-			budget = 5000
+			budget = keyBudget
 		case x < 93:
 			p.Ops = append(p.Ops, TOp{K: TGet, Key: drawKey()})
 		default:
